@@ -41,6 +41,20 @@ type c04Op struct {
 	SetHdr bool   `json:"set_hdr,omitempty"`
 	Seq    uint32 `json:"seq,omitempty"`
 	Domain uint32 `json:"domain,omitempty"`
+	Time   uint32 `json:"time,omitempty"` // export time / UNIX secs of the header when SetHdr is true
+	// withdraw: one message whose template set (id 2) holds a field-less record — [id of Slot, 0], or [2, 0] when
+	// All — optionally followed in the SAME set by the template records of Tpls (re-announcements of the slots
+	// SlotsOf[i]); then, optionally, a data set for Slot (DataOld: encoded to its definition so far) and a data set
+	// for the slot Other under its current template. A collector without template withdrawal reads the field-less
+	// record as padding (when it ends the set) or as a template without fields; one with withdrawal removes the
+	// template(s). Either way: a slot re-announced behind the record has the new definition; a slot neither named
+	// nor (for All) of the plain kind is untouched; the named slot yields its old decode or nothing plus an error.
+	All     bool            `json:"all,omitempty"`
+	Tpls    []wire.Template `json:"tpls,omitempty"`
+	SlotsOf []int           `json:"slots_of,omitempty"`
+	DataOld []wire.Record   `json:"data_old,omitempty"`
+	Other   int             `json:"other,omitempty"`
+	DataOth []wire.Record   `json:"data_oth,omitempty"`
 }
 
 type c04MixedSet struct {
@@ -61,9 +75,13 @@ type c04Case struct {
 
 const c04Rule = "case = protocol (ipfix | nf9) + 2..6 (exporter address, template id) slots (IPv4 4-byte, IPv4-mapped, IPv6; ids shared across exporters; adversarial pairs that collide on the cache's " +
 	"full 32-bit FNV-1 hash, share a shard, or share a shard and have the same text when address and id are written without separator; found by searching ~1.5M keys) + 2..30 operations: announce (alone or with data in the same message), re-announce with a different definition " +
-	"(same record length with other elements, same elements with other field lengths, a fresh template, or fields of length zero: then data naming the id must yield nothing), data under the model's current template, data for a never-announced slot, peer Get (ipfix), and messages mixing data sets and (re-)announcements of several ids of one exporter in any order; " +
+	"(same record length with other elements, same elements with other field lengths, a fresh template, or fields of length zero: then data naming the id must yield nothing), field-less template records ([id,0] and [2,0], alone or with re-announcements behind them in the same set: a re-announced id has the new definition, an id the record does not concern is untouched, the named id decodes as before or yields nothing plus an error), drawn export times, data under the model's current template, data for a never-announced slot, peer Get (ipfix), and messages mixing data sets and (re-)announcements of several ids of one exporter in any order; " +
 	"invariant after every step = decode equals the reference expectation under the model's template for exactly that slot, unannounced slots give an 'unknown template' error and no records, peer Get returns the model's template or 'not available'; " +
 	"non-trivial = a re-announcement followed by data, or >= 2 exporters using one id with different definitions, or a colliding pair in use; distinct by hash"
+
+// lastC04Tolerant: slots of the last history run that were named by a field-less template record and not
+// re-announced since (C11 compares those before and after the round trip instead of against the model)
+var lastC04Tolerant map[int]bool
 
 // ---------------------------------------------------------------- adversarial key search
 
@@ -190,11 +208,13 @@ func mapped4(a []byte) string {
 func genC04(t *rapid.T, proto string, env *wire.GenEnv, opts ...string) c04Case {
 	findCollisions()
 	c := c04Case{Proto: proto}
-	allowEmpty := false
+	allowEmpty, allowWithdraw := false, false
 	for _, o := range opts {
 		allowEmpty = allowEmpty || o == "empty"
+		allowWithdraw = allowWithdraw || o == "withdraw"
 	}
-	forms := map[string]int{} // IPv4 address -> octet length used in this history
+	tolerant := map[int]bool{} // slots named by a field-less record and not re-announced since
+	forms := map[string]int{}  // IPv4 address -> octet length used in this history
 	okAddr := func(a []byte) bool {
 		k := mapped4(a)
 		if l, ok := forms[k]; ok && l != len(a) {
@@ -253,6 +273,71 @@ func genC04(t *rapid.T, proto string, env *wire.GenEnv, opts ...string) c04Case 
 		slot := rapid.IntRange(0, len(c.Slots)-1).Draw(t, "slot")
 		cur := model[slot]
 		kind := rapid.IntRange(0, 9).Draw(t, "opkind")
+		if allowWithdraw && proto == "ipfix" && cur != nil && cur.MinRecordLen() > 0 && rapid.IntRange(0, 9).Draw(t, "withdraw") == 0 {
+			var same []int
+			for j := range c.Slots {
+				if string(c.Slots[j].Addr) == string(c.Slots[slot].Addr) {
+					same = append(same, j)
+				}
+			}
+			op := c04Op{Op: "withdraw", Slot: slot, Other: -1, All: rapid.IntRange(0, 3).Draw(t, "wall") == 0}
+			// records behind the field-less one, in the same set: re-announcements (plain templates only: set id 2)
+			for _, j := range same {
+				if rapid.IntRange(0, 2).Draw(t, "wre") != 0 {
+					continue
+				}
+				tp := env.GenTemplate(t, c.Slots[j].ID)
+				for try := 0; tp.Options && try < 8; try++ {
+					tp = env.GenTemplate(t, c.Slots[j].ID)
+				}
+				if tp.Options {
+					continue
+				}
+				op.Tpls = append(op.Tpls, tp)
+				op.SlotsOf = append(op.SlotsOf, j)
+			}
+			reann := map[int]bool{}
+			for _, j := range op.SlotsOf {
+				reann[j] = true
+			}
+			if !reann[slot] && rapid.Bool().Draw(t, "wdataold") {
+				op.DataOld = env.GenDataSet(t, cur, 2).Recs
+			}
+			// a data set of a slot the record does not concern (options templates are never concerned; with All every
+			// plain template of the exporter is)
+			for _, j := range same {
+				tj := model[j]
+				if j == slot || reann[j] || tolerant[j] || tj == nil || tj.MinRecordLen() == 0 || (op.All && !tj.Options) {
+					continue
+				}
+				if rapid.Bool().Draw(t, "wother") {
+					op.Other = j
+					op.DataOth = env.GenDataSet(t, tj, 2).Recs
+					break
+				}
+			}
+			c.Ops = append(c.Ops, op)
+			if !reann[slot] {
+				tolerant[slot] = true
+			}
+			if op.All {
+				for _, j := range same {
+					if model[j] != nil && !model[j].Options && !reann[j] {
+						tolerant[j] = true
+					}
+				}
+			}
+			for k, j := range op.SlotsOf {
+				tp := op.Tpls[k]
+				model[j] = &tp
+				delete(tolerant, j)
+			}
+			continue
+		}
+		if tolerant[slot] && kind >= 4 && kind <= 8 {
+			// a slot in that state is only re-announced, looked up, or sent plain data
+			kind = rapid.SampledFrom([]int{2, 3, 4, 9}).Draw(t, "tolkind")
+		}
 		switch {
 		case kind == 7:
 			// one message whose template set(s) carry the template records of SEVERAL ids of this exporter, in a drawn
@@ -275,6 +360,7 @@ func genC04(t *rapid.T, proto string, env *wire.GenEnv, opts ...string) c04Case 
 				}
 				op.Sets = append(op.Sets, c04MixedSet{Slot: j, Tpl: &tp, Join: true})
 				model[j] = &tp
+				delete(tolerant, j)
 			}
 			for k, nd := 0, rapid.IntRange(1, 3).Draw(t, "multidata"); k < nd; k++ {
 				j := same[rapid.IntRange(0, len(same)-1).Draw(t, "multidataslot")]
@@ -297,6 +383,9 @@ func genC04(t *rapid.T, proto string, env *wire.GenEnv, opts ...string) c04Case 
 			local := map[int]*wire.Template{}
 			for _, j := range same {
 				local[j] = model[j]
+				if tolerant[j] {
+					local[j] = nil // must be announced again before data of it appears
+				}
 			}
 			ns := rapid.IntRange(2, 5).Draw(t, "mixedsets")
 			for k := 0; k < ns; k++ {
@@ -312,13 +401,16 @@ func genC04(t *rapid.T, proto string, env *wire.GenEnv, opts ...string) c04Case 
 					}
 					op.Sets = append(op.Sets, c04MixedSet{Slot: j, Tpl: &tp, Join: rapid.Bool().Draw(t, "mixedjoin")})
 					local[j] = &tp
+					delete(tolerant, j)
 				} else {
 					ds := env.GenDataSet(t, local[j], 3)
 					op.Sets = append(op.Sets, c04MixedSet{Slot: j, Recs: ds.Recs, Pad: ds.Pad})
 				}
 			}
 			for _, j := range same {
-				model[j] = local[j]
+				if local[j] != nil {
+					model[j] = local[j]
+				}
 			}
 			c.Ops = append(c.Ops, op)
 		case cur == nil && kind <= 1:
@@ -364,6 +456,7 @@ func genC04(t *rapid.T, proto string, env *wire.GenEnv, opts ...string) c04Case 
 			}
 			c.Ops = append(c.Ops, op)
 			model[slot] = &tp
+			delete(tolerant, slot)
 		default:
 			if cur.MinRecordLen() == 0 {
 				// data naming a template that describes empty records: the runner sends an arbitrary body
@@ -380,6 +473,7 @@ func genC04(t *rapid.T, proto string, env *wire.GenEnv, opts ...string) c04Case 
 				c.Ops[i].SetHdr = true
 				c.Ops[i].Seq = rapid.OneOf(rapid.SampledFrom([]uint32{0, 1, 2, 0x7fffffff, 0x80000000, 0x80000001, 0xffffffff, 1000}), rapid.Uint32()).Draw(t, "hdrseq")
 				c.Ops[i].Domain = rapid.SampledFrom([]uint32{7, 7, 0, 1, 8, 0xffffffff}).Draw(t, "hdrdomain")
+				c.Ops[i].Time = rapid.OneOf(rapid.SampledFrom([]uint32{0, 1, 1000, 0x7fffffff, 0x80000000, 0xffffffff, 1700000000, 1600000000}), rapid.Uint32()).Draw(t, "hdrtime")
 			}
 		}
 	}
@@ -452,6 +546,9 @@ func runC04x(c *c04Case) (v verdict, sig string, err error, cache *flowCache, mo
 	inMsgRe := false // data, re-announcement, data of one id inside one message
 	multiTplSet := false
 	emptyRedef := false
+	tolerant := map[int]bool{} // slots named by a field-less template record and not re-announced since
+	lastC04Tolerant = tolerant
+	withdrawSeen := false
 	seq := uint32(1)
 	var cur *c04Op
 	nonMonotonic := false
@@ -459,7 +556,7 @@ func runC04x(c *c04Case) (v verdict, sig string, err error, cache *flowCache, mo
 		seq++
 		m := wire.Msg{Proto: c.Proto, Seq: seq, Time: 1000 + seq, Domain: 7, Count: 1}
 		if cur != nil && cur.SetHdr {
-			m.Seq, m.Domain = cur.Seq, cur.Domain
+			m.Seq, m.Domain, m.Time = cur.Seq, cur.Domain, cur.Time
 			nonMonotonic = true
 		}
 		return m
@@ -507,6 +604,77 @@ func runC04x(c *c04Case) (v verdict, sig string, err error, cache *flowCache, mo
 				reannounced[op.Slot] = true
 			}
 			model[op.Slot] = op.Tpl
+			delete(tolerant, op.Slot)
+		case "withdraw":
+			if c.Proto != "ipfix" || model[op.Slot] == nil || len(op.Tpls) != len(op.SlotsOf) {
+				return v, "", fmt.Errorf("bad case: withdraw"), cache, model
+			}
+			withdrawSeen = true
+			m := hdr()
+			rec := wire.Template{ID: sl.ID} // no fields: encodes as [id, 0]
+			if op.All {
+				rec.ID = 2
+			}
+			ts := wire.Set{Kind: "tpl", Tpls: []wire.Template{rec}}
+			reann := map[int]bool{}
+			for k, j := range op.SlotsOf {
+				if j < 0 || j >= len(c.Slots) || string(c.Slots[j].Addr) != string(sl.Addr) || op.Tpls[k].ID != c.Slots[j].ID || op.Tpls[k].Options {
+					return v, "", fmt.Errorf("bad case: withdraw re-announcement"), cache, model
+				}
+				ts.Tpls = append(ts.Tpls, op.Tpls[k])
+				reann[j] = true
+			}
+			m.Sets = append(m.Sets, ts)
+			old := model[op.Slot]
+			// state after the template set
+			if !reann[op.Slot] {
+				tolerant[op.Slot] = true
+			}
+			if op.All {
+				for j := range c.Slots {
+					if string(c.Slots[j].Addr) == string(sl.Addr) && model[j] != nil && !model[j].Options && !reann[j] {
+						tolerant[j] = true
+					}
+				}
+			}
+			for k, j := range op.SlotsOf {
+				tp := op.Tpls[k]
+				model[j] = &tp
+				delete(tolerant, j)
+			}
+			var wantOld, wantOth []wire.ExpRecord
+			if len(op.DataOld) > 0 && tolerant[op.Slot] {
+				m.Sets = append(m.Sets, wire.Set{Kind: "data", Tpl: old, Recs: op.DataOld})
+				for r := range op.DataOld {
+					wantOld = append(wantOld, wire.ExpectRecord(old, &op.DataOld[r]))
+				}
+			}
+			if op.Other >= 0 && len(op.DataOth) > 0 {
+				if op.Other >= len(c.Slots) || string(c.Slots[op.Other].Addr) != string(sl.Addr) || model[op.Other] == nil || tolerant[op.Other] {
+					return v, "", fmt.Errorf("bad case: withdraw other"), cache, model
+				}
+				ot := model[op.Other]
+				m.Sets = append(m.Sets, wire.Set{Kind: "data", Tpl: ot, Recs: op.DataOth})
+				for r := range op.DataOth {
+					wantOth = append(wantOth, wire.ExpectRecord(ot, &op.DataOth[r]))
+				}
+			}
+			if len(m.Bytes()) > 65507 {
+				return v, "", nil, cache, model
+			}
+			res, perr := cache.decodeFlow(addr, m.Bytes())
+			if perr != nil {
+				return v, "panic", step("%v", perr), cache, model
+			}
+			if res.Nil {
+				return v, "withdraw-lost", step("a message holding a field-less template record (and the sets behind it) was dropped entirely: %v", res.Err), cache, model
+			}
+			// the named slot's data: decoded as before, or nothing (then reported); the other slot's data: always
+			a := wire.CompareRecords(res.Recs, append(append([]wire.ExpRecord{}, wantOld...), wantOth...))
+			b := wire.CompareRecords(res.Recs, wantOth)
+			if a != "" && (b != "" || (len(wantOld) > 0 && res.Err == nil)) {
+				return v, "withdraw-neighbours", step("after a field-less template record for this id (all=%v), the data sets behind it decode neither as before nor with the named template's set skipped and reported; the records of a template the record does not concern must be there: %s", op.All, b), cache, model
+			}
 		case "mixed":
 			m := hdr()
 			var want []wire.ExpRecord
@@ -537,10 +705,11 @@ func runC04x(c *c04Case) (v verdict, sig string, err error, cache *flowCache, mo
 						staleRisk = true
 					}
 					model[ms.Slot] = ms.Tpl
+					delete(tolerant, ms.Slot)
 					continue
 				}
 				tp := model[ms.Slot]
-				if tp == nil {
+				if tp == nil || tolerant[ms.Slot] {
 					return v, "", fmt.Errorf("bad case: mixed data before announce"), cache, model
 				}
 				m.Sets = append(m.Sets, wire.Set{Kind: "data", Tpl: tp, Recs: ms.Recs, Pad: ms.Pad})
@@ -601,6 +770,16 @@ func runC04x(c *c04Case) (v verdict, sig string, err error, cache *flowCache, mo
 			if perr != nil {
 				return v, "panic", step("%v", perr), cache, model
 			}
+			if tolerant[op.Slot] {
+				// named by a field-less record since its last announcement: decoded as before, or nothing and reported
+				if !res.Nil && len(res.Recs) == 0 && res.Err != nil {
+					continue
+				}
+				if res.Nil || res.Err != nil || wire.CompareRecords(res.Recs, wire.ExpectMsg(&m)) != "" {
+					return v, "withdraw-data", step("data for an id named by a field-less template record decodes neither as before nor to nothing with an error: nil=%v err=%v", res.Nil, res.Err), cache, model
+				}
+				continue
+			}
 			if res.Nil || res.Err != nil {
 				return v, "data-error", step("data under the exporter's current template failed: nil=%v err=%v", res.Nil, res.Err), cache, model
 			}
@@ -643,6 +822,9 @@ func runC04x(c *c04Case) (v verdict, sig string, err error, cache *flowCache, mo
 					return v, "peer-foreign", step("peer Get for an unannounced (exporter, id) returned a template (id %d, %d fields)", resp.TemplateID, len(resp.FieldSpecifiers)), cache, model
 				}
 				continue
+			}
+			if tolerant[op.Slot] && (gerr != nil || len(resp.FieldSpecifiers)+len(resp.ScopeFieldSpecifiers) == 0) {
+				continue // named by a field-less record: gone, or held as a template without fields
 			}
 			if gerr != nil {
 				return v, "peer-missing", step("peer Get failed for an announced template: %v", gerr), cache, model
@@ -698,6 +880,7 @@ func runC04x(c *c04Case) (v verdict, sig string, err error, cache *flowCache, mo
 	v.label(inMsgRe, "data-reannounce-data-in-one-message")
 	v.label(multiTplSet, "several-template-records-in-one-set")
 	v.label(emptyRedef, "data-after-redefinition-with-zero-length-fields")
+	v.label(withdrawSeen, "field-less-template-record")
 	v.label(nonMonotonic, "drawn-sequence-numbers-and-domains")
 	v.label(sharedID, "one-id-different-definitions")
 	for _, op := range c.Ops {
@@ -722,7 +905,7 @@ func TestC04(t *testing.T) {
 	envs := map[string]*wire.GenEnv{"ipfix": wire.NewGenEnv("ipfix"), "nf9": wire.NewGenEnv("nf9")}
 	rapid.Check(t, func(t *rapid.T) {
 		proto := rapid.SampledFrom([]string{"ipfix", "nf9"}).Draw(t, "proto")
-		c := genC04(t, proto, envs[proto], "empty")
+		c := genC04(t, proto, envs[proto], "empty", "withdraw")
 		v, sig, err := runC04(&c)
 		col.report(t, mustJSON(c), v, sig, err)
 	})
